@@ -1,7 +1,7 @@
 import Ebu.Spec.Flow
 import Ebu.Model.Upcast
 import Ebu.Proofs.Upcast
-import Ebu.Props.C03
+import Ebu.Props.C03Facts
 /-!
 C16 — Upcaster registration can never create a cycle and upcasting always terminates.
 
